@@ -774,6 +774,9 @@ func (pe *PEngine) discharge(p *pci) (bool, []string, string) {
 		if pf.proveAt(p.ins.Block(), pgoal{nonnil: pf.get(p.nilOf).key}, nil, 0) {
 			return true, []string{"guards on every path establish " + descVN(pf.get(p.nilOf), 0) + " != nil"}, ""
 		}
+		if ok, why := pe.liftNilToCallers(p); ok {
+			return true, []string{why}, ""
+		}
 		return false, fs.strings(), "value may be nil: " + p.why
 	case "abort":
 		if pe.blockInfeasible(pf, fs) {
@@ -986,6 +989,67 @@ func (pe *PEngine) liftToCallers(p *pci, goals []*lin) (bool, string) {
 		return false, ""
 	}
 	return true, fmt.Sprintf("precondition on parameters holds at all %d call sites in the module", n)
+}
+
+// liftNilToCallers: an unexported function dereferences a value that is a function of its
+// parameters and of memory as it is on entry; it is non-nil if it is non-nil at every call site.
+func (pe *PEngine) liftNilToCallers(p *pci) (bool, string) {
+	if p.fn.Object() != nil && p.fn.Object().Exported() {
+		return false, ""
+	}
+	pf := pe.pf(p.fn)
+	a := pf.get(p.nilOf)
+	var transl func(a *vn, depth int) bool
+	transl = func(a *vn, depth int) bool {
+		if a == nil || depth > 8 {
+			return false
+		}
+		switch a.op {
+		case "param", "const":
+			return true
+		case "conv", "fieldaddr":
+		case "load":
+			if !strings.HasSuffix(a.key, "@entry") {
+				return false
+			}
+		default:
+			return false
+		}
+		for _, x := range a.args {
+			if !transl(x, depth+1) {
+				return false
+			}
+		}
+		return true
+	}
+	if !transl(a, 0) {
+		return false, ""
+	}
+	node := pe.P.CG().Nodes[p.fn]
+	if node == nil {
+		return false, ""
+	}
+	n := 0
+	for _, e := range node.In {
+		caller := e.Caller.Func
+		if !inScope(pkgPathOf(caller)) || e.Site == nil {
+			continue
+		}
+		n++
+		cpf := pe.pf(caller)
+		at, ok := cpf.posOf[e.Site.(ssa.Instruction)]
+		if !ok {
+			return false, ""
+		}
+		tv := translateVN(cpf, a, e.Site.Common().Args, at)
+		if tv == nil || !cpf.proveAt(e.Site.Block(), pgoal{nonnil: tv.key}, nil, 0) {
+			return false, ""
+		}
+	}
+	if n == 0 {
+		return false, ""
+	}
+	return true, fmt.Sprintf("the value is non-nil at all %d call sites in the module", n)
 }
 
 // exported helpers whose preconditions are nevertheless lifted to their module callers,
